@@ -31,7 +31,7 @@ func (s *Solver) checkFull(pc []string, capMs int, extra ...string) string {
 	}
 	s.send("(push)")
 	for _, p := range pc {
-		s.send("(assert " + strings.TrimPrefix(p, "#def#") + ")")
+		s.send("(assert " + strings.TrimPrefix(strings.TrimPrefix(p, "#def#"), "#name#") + ")")
 	}
 	for _, p := range extra {
 		s.send("(assert " + p + ")")
@@ -61,6 +61,22 @@ func (e *Exec) bigs(s *State, vs ...Val) ([]string, bool) {
 		if b.Nil {
 			e.runtimePanic(s, "invalid memory address or nil pointer dereference (nil math.Int/LegacyDec)")
 			return nil, false
+		}
+		if b.NilIf != "" {
+			// merged maybe-nil value: the nil case is a panic path of its own
+			if e.sol.check(s.PC, b.NilIf) != "unsat" {
+				if e.sol.check(s.PC, tNot(b.NilIf)) == "unsat" {
+					e.runtimePanic(s, "invalid memory address or nil pointer dereference (nil math.Int/LegacyDec)")
+					return nil, false
+				}
+				p := s.clone()
+				p.PC = append(p.PC, b.NilIf)
+				e.runtimePanic(p, "invalid memory address or nil pointer dereference (nil math.Int/LegacyDec)")
+				s.PC = append(s.PC, tNot(b.NilIf))
+				top(s).Idx-- // re-execute the operation on the non-nil side
+				e.pendingForks = []*State{p, s}
+				return nil, false
+			}
 		}
 		out[i] = b.T
 	}
@@ -205,7 +221,7 @@ func init() {
 		reg(p+"Neg", un(func(t string) Val { return BigV{T: tNeg(t)} }))
 		reg(p+"Abs", un(func(t string) Val { return BigV{T: tIte(tCmp("<", t, "0"), tNeg(t), t)} }))
 		reg(p+"IsNil", func(e *Exec, s *State, f *Frame, x *ssa.Call, a []Val) ([]*State, bool) {
-			return ret(f, x, boolc(a[0].(BigV).Nil))
+			return ret(f, x, Sym{Bool: true, S: bigNilTerm(a[0].(BigV))})
 		})
 		reg(p+"BigInt", func(e *Exec, s *State, f *Frame, x *ssa.Call, a []Val) ([]*State, bool) {
 			b := a[0].(BigV)
